@@ -96,7 +96,7 @@ Definition cc_read (x : sconn) (ev : read_ev) : (sconn * list request) + serr :=
 
 (* ClientConnection::write (with the repair: nothing is written on a closed connection).
    Returns the bytes the stream accepted. *)
-Definition cc_write (x : sconn) (can_receive : bool) : (sconn * bytes) + serr :=
+Definition cc_write (x : sconn) (can_receive : bool) (k : nat) : (sconn * bytes) + serr :=
   match sc_st x with
   | SClosed => inl (x, [])
   | _ =>
@@ -105,7 +105,8 @@ Definition cc_write (x : sconn) (can_receive : bool) : (sconn * bytes) + serr :=
                    | Some b => b
                    | None => match c_rq c with r :: _ => serialize r | [] => [] end
                    end in
-    let ev := if can_receive then WWrote (length offered) else WFail in
+    let n := if Nat.eqb k 0 then length offered else Nat.min k (length offered) in
+    let ev := if can_receive then WWrote n else WFail in
     let '(c1, res, off) := try_write c ev in
     match res with
     | WrPanic _ => inr EPanic
@@ -113,7 +114,7 @@ Definition cc_write (x : sconn) (can_receive : bool) : (sconn * bytes) + serr :=
     | WrErr _ => inl (mkSC c1 SClosed (sc_infl x) (sc_client x) (sc_out x) (sc_gid x), [])
     | WrOk =>
         inl (mkSC c1 (if pending_write c1 then sc_st x else AwaitIn) (sc_infl x) (sc_client x) (sc_out x) (sc_gid x),
-             if can_receive then offered else [])
+             if can_receive then firstn n offered else [])
     end
   end.
 
@@ -171,13 +172,15 @@ Definition client_of (w : world) (c : nat) : client :=
   match alookup c (w_clients w) with Some cl => cl | None => dead_client end.
 
 (* ---------- one epoll event ---------- *)
-Inductive event := EvHup (g : nat) | EvIn (g : nat) | EvOut (g : nat) | EvListener (newfd : nat) | EvKill.
+(* EvOut g k: the kernel accepts at most k bytes of what is offered (k = 0: everything); K3 only promises at least
+   one byte on an OUT report *)
+Inductive event := EvHup (g : nat) | EvIn (g : nat) | EvOut (g : nat) (k : nat) | EvListener (newfd : nat) | EvKill.
 
 (* readiness of one connection (level-triggered) *)
 Definition conn_event (w : world) (g : nat) (x : sconn) : option event :=
   let cl := client_of w (sc_client x) in
   if k_hup cl then Some (EvHup g)
-  else if sc_out x then Some (EvOut g)
+  else if sc_out x then Some (EvOut g 0)
   else match k_tosrv cl with [] => None | _ => Some (EvIn g) end.
 
 (* a descriptor number not in use (Linux hands out the lowest free one; the theorems hold for any
@@ -218,12 +221,12 @@ Definition handle_event (w : world) (e : event) : (world * list yield) + serr :=
               inl (set_client (set_conn w g y') (sc_client x) cl', map (fun r => (g, sc_gid x, r)) reqs)
           end
       end
-  | EvOut g =>
+  | EvOut g k =>
       match alookup g (w_conns w) with
       | None => inr EPanic
       | Some x =>
           let cl := client_of w (sc_client x) in
-          match cc_write x (k_can_receive cl) with
+          match cc_write x (k_can_receive cl) k with
           | inr err => inr err
           | inl (y, sent) =>
               let y' := match sc_st y with
@@ -312,7 +315,7 @@ Fixpoint flush_conn (fuel : nat) (x : sconn) (can_receive : bool) (sent : bytes)
   | S f =>
     match sc_st x with
     | AwaitOut =>
-        match cc_write x can_receive with
+        match cc_write x can_receive 0 with
         | inl (y, s) => flush_conn f y can_receive (sent ++ s)
         | inr _ => (x, sent)
         end
